@@ -1,10 +1,13 @@
 package main
 
 import (
+	"errors"
 	"io"
 	"time"
 
 	"github.com/pkg/sftp"
+
+	"verifharness/lib"
 )
 
 // vhPipeEnd glues a reader and a writer into an io.ReadWriteCloser.
@@ -37,7 +40,7 @@ func vhStartRS(h sftp.Handlers, copts []sftp.ClientOption, sopts ...sftp.Request
 	rs := sftp.NewRequestServer(vhPipeEnd{Reader: c2sR, WriteCloser: s2cW, extra: func() { c2sR.Close() }}, h, sopts...)
 	p := &vhPair{RS: rs, done: make(chan error, 1)}
 	go func() { err := rs.Serve(); s2cW.Close(); p.done <- err }()
-	c, err := sftp.NewClientPipe(s2cR, c2sW, copts...)
+	c, err := vhNewClient(s2cR, c2sW, copts)
 	if err != nil {
 		c2sW.Close()
 		return nil, err
@@ -56,7 +59,7 @@ func vhStartOS(copts []sftp.ClientOption, sopts ...sftp.ServerOption) (*vhPair, 
 	}
 	p := &vhPair{OS: srv, done: make(chan error, 1)}
 	go func() { err := srv.Serve(); s2cW.Close(); p.done <- err }()
-	c, err := sftp.NewClientPipe(s2cR, c2sW, copts...)
+	c, err := vhNewClient(s2cR, c2sW, copts)
 	if err != nil {
 		c2sW.Close()
 		return nil, err
@@ -73,8 +76,20 @@ func (p *vhPair) Close() {
 		<-p.done
 		close(fin)
 	}()
-	select {
-	case <-fin:
-	case <-time.After(10 * time.Second):
+	lib.WaitCleanup("pair/close", 10*time.Second, fin) // a clean-up wait, not an oracle: bounded by its own budget (lib/budget.go)
+}
+
+// vhNewClient is sftp.NewClientPipe with the hang deadline (a handshake that never completes must not block the check).
+func vhNewClient(rd io.Reader, wr io.WriteCloser, copts []sftp.ClientOption) (*sftp.Client, error) {
+	type res struct {
+		c   *sftp.Client
+		err error
 	}
+	ch := make(chan res, 1)
+	go func() { c, err := sftp.NewClientPipe(rd, wr, copts...); ch <- res{c, err} }()
+	r, ok := lib.WaitHang("pair/handshake", 20*time.Second, ch)
+	if !ok {
+		return nil, errors.New("client handshake did not complete within 20 s")
+	}
+	return r.c, r.err
 }
